@@ -37,6 +37,19 @@ EXC_TREE = {
 }
 
 
+def _complete_exc_tree():
+    """every exception / warning class python itself defines, with its real base (first base for the multiple-inheritance ones)"""
+    import builtins
+    for name in dir(builtins):
+        obj = getattr(builtins, name)
+        if isinstance(obj, type) and issubclass(obj, BaseException) and name not in EXC_TREE and obj.__name__ == name:
+            EXC_TREE[name] = obj.__mro__[1].__name__ if obj.__mro__[1] is not object else None
+    # aliases (IOError, EnvironmentError) keep the entry given above
+
+
+_complete_exc_tree()
+
+
 def make_builtin_classes():
     out = {}
     for name in EXC_TREE:
@@ -67,12 +80,19 @@ class BuiltinsMixin(AccessMixin):
         self.builtin_ctors = {
             "dict": self.bi_dict, "list": self.bi_list, "int": self.bi_int, "str": self.bi_str,
             "bytes": self.bi_bytes, "bytearray": self.bi_bytearray, "tuple": self.bi_tuple,
+            "id": self.bi_id,
             "set": self.bi_set, "bool": self.bi_bool, "type": self.bi_type, "float": self.bi_float,
             "frozenset": self.bi_set, "object": lambda a, k, n, f: Instance(self.bclasses["object"]),
         }
         return b
 
     # -- simple builtins ---------------------------------------------------
+    def bi_id(self, args, kwargs, node, frame):
+        """the identity of an object: an integer that is unique among the objects alive at the same time (the model keeps
+        every object alive, so it never shows the reuse of a freed object's identity)"""
+        self.event("id-taken", obj=args[0], where=frame.where(node), node=node)
+        return id(args[0])
+
     def bi_len(self, args, kwargs, node, frame):
         return self.len_of(args[0], node, frame)
 
@@ -318,7 +338,10 @@ class BuiltinsMixin(AccessMixin):
         return SymStr(("format",))
 
     def bi_id(self, args, kwargs, node, frame):
-        return Unknown("id")
+        """the identity of an object: an integer that is unique among the objects alive at the same time (the model keeps
+        every object alive, so it never shows the reuse of a freed object's identity)"""
+        self.event("id-taken", obj=args[0], where=frame.where(node), node=node)
+        return id(args[0])
 
     def bi_divmod(self, args, kwargs, node, frame):
         return (self.binop("//", args[0], args[1], node, frame), self.binop("%", args[0], args[1], node, frame))
